@@ -306,13 +306,18 @@ def body(draw, refs, known, profile: str, opts: dict, union: typing.Optional[boo
         pos = draw(st.integers(0, len(attrs)))
         attrs.insert(pos, draw(const_attr(used, profile)))
     sealed = draw(st.booleans())
-    return {"union": is_union, "sealed": sealed, "extent_extra": draw(st.sampled_from([0, 1, 7, 64])), "attrs": attrs}
+    out = {"union": is_union, "sealed": sealed, "extent_extra": draw(st.sampled_from([0, 1, 7, 64])), "attrs": attrs}
+    if wide and not sealed:
+        # an `_offset_` expression makes the front end expand the bit length set numerically (intractable for huge arrays):
+        # wide bodies carry an explicit numeric extent instead
+        out["extent_bits"] = ((body_max_bits(out, known) + 7) // 8 + out["extent_extra"]) * 8
+    return out
 
 
 def body_max_bits(b: dict, known) -> int:
     fields = [a for a in b["attrs"] if a["k"] != "const"]
     if b["union"]:
-        return 64 + max((max_bits(a["type"], known) + 7) for a in fields if a["k"] == "field")
+        return 64 + max([(max_bits(a["type"], known) + 7) for a in fields if a["k"] == "field"] or [0])
     return sum((a["bits"] if a["k"] == "void" else max_bits(a["type"], known) + 7) for a in fields)
 
 
@@ -449,6 +454,8 @@ def body_text(b: dict, deprecated: bool, doc: typing.List[str]) -> str:
             lines.append(f"{type_text(a['type'])} {a['name']}" + (f"  # {a['doc']}" if a.get("doc") else ""))
     if b["sealed"]:
         lines.append("@sealed")
+    elif "extent_bits" in b:
+        lines.append(f"@extent {b['extent_bits']}")
     else:
         lines.append(f"@extent _offset_.max + (8 - _offset_.max % 8) % 8 + {b['extent_extra'] * 8}" if b["attrs"] and any(a["k"] != "const" for a in b["attrs"]) else f"@extent {b['extent_extra'] * 8}")
     return "\n".join(lines) + "\n"
